@@ -102,7 +102,8 @@ def replay_chunk(args):
 
             tf = os.path.join(base, "trace.ndjson") if (want_trace and si % want_trace == 0) else None
             with cbi.tracing(None):
-                conf = m.load_configuration(byp, rnd)
+                # entries with and without a "directory" key, in any order
+                conf = m.load_configuration(byp, rnd, mixed_dirs=True)
             # (a) full configuration
             check(conf, exp, "full", tf)
             # (b) every single-command split
